@@ -159,23 +159,34 @@ func runC12(c *Ctx, r *Report, tier string) {
 		return strings.HasSuffix(pos.Filename, "ini.go")
 	}
 	var q, uq []string
+	seenQ := map[string]bool{}
 	for _, fn := range c.Funcs {
 		if !isIni(fn) {
 			continue
 		}
-		for _, in := range c.instrs(fn, func(in ssa.Instruction) bool {
-			ci, ok := in.(ssa.CallInstruction)
-			if !ok {
-				return false
-			}
-			n := c.calleeName(ci.Common())
-			return strings.HasPrefix(n, "strconv.Quote") || strings.HasPrefix(n, "strconv.Unquote") || strings.HasPrefix(n, "strconv.AppendQuote") || n == "quoteIfNeeded" || n == "quoteV" || n == "unquoteIfPossible"
-		}) {
-			n := c.calleeName(in.(ssa.CallInstruction).Common())
-			if strings.Contains(n, "nquote") {
-				uq = append(uq, c.fname(fn)+":"+n)
-			} else {
-				q = append(q, c.fname(fn)+":"+n)
+		for _, b := range fn.Blocks {
+			for _, in := range b.Instrs {
+				ci, ok := in.(ssa.CallInstruction)
+				if !ok {
+					continue
+				}
+				n := c.calleeName(ci.Common())
+				if !(strings.HasPrefix(n, "strconv.Quote") || strings.HasPrefix(n, "strconv.Unquote") || strings.HasPrefix(n, "strconv.AppendQuote") || n == "quoteIfNeeded" || n == "quoteV" || n == "unquoteIfPossible") {
+					continue
+				}
+				// a helper extracted from the reader/writer counts for the functions it serves
+				for _, o := range c.ownerNames(fn) {
+					k := o + ":" + n
+					if seenQ[k] {
+						continue
+					}
+					seenQ[k] = true
+					if strings.Contains(n, "nquote") {
+						uq = append(uq, k)
+					} else {
+						q = append(q, k)
+					}
+				}
 			}
 		}
 	}
